@@ -65,6 +65,13 @@ fn run(op: &Op) -> (u64, usize) {
                 dg.f64(*pl);
                 dg.f64(*pb);
             }
+            for (pl, pb) in nested::path_along_cell_side(*d, *h, &cdshealpix::compass_point::Cardinal::S, &cdshealpix::compass_point::Cardinal::E, true, 2).iter() {
+                dg.f64(*pl);
+                dg.f64(*pb);
+            }
+            let (vl, vb) = nested::get_or_create(*d).vertex(*h, cdshealpix::compass_point::Cardinal::N);
+            dg.f64(vl);
+            dg.f64(vb);
             dg.u64(nested::n_hash(*d));
         }
         Op::N { d, h } => {
@@ -76,6 +83,15 @@ fn run(op: &Op) -> (u64, usize) {
             for v in m.sorted_values_vec() {
                 dg.u64(v);
             }
+            // the single-direction accessor and the variant without the centre
+            use cdshealpix::compass_point::MainWind;
+            let l = nested::get_or_create(*d);
+            for dir in [MainWind::N, MainWind::SE, MainWind::W] {
+                dg.u64(l.neighbour(*h, dir).unwrap_or(u64::MAX));
+            }
+            for v in nested::neighbours(*d, *h, false).values_vec() {
+                dg.u64(v);
+            }
         }
         Op::K { d, lon, lat, r } => bmoc_digest(&mut dg, &nested::cone_coverage_approx(*d, *lon, *lat, *r)),
         Op::Kc { d, dd, lon, lat, r } => bmoc_digest(&mut dg, &nested::cone_coverage_approx_custom(*d, *dd, *lon, *lat, *r)),
@@ -84,6 +100,17 @@ fn run(op: &Op) -> (u64, usize) {
         Op::P { d, verts, exact } => bmoc_digest(&mut dg, &nested::polygon_coverage(*d, verts, *exact)),
         Op::X { d, h, dd } => {
             for v in nested::external_edge_sorted(*d, *h, *dd).iter() {
+                dg.u64(*v);
+            }
+            dg.u64(u64::MAX);
+            for v in nested::external_edge(*d, *h, *dd).iter() {
+                dg.u64(*v);
+            }
+            let st = nested::external_edge_struct(*d, *h, *dd);
+            for c in [cdshealpix::compass_point::Cardinal::S, cdshealpix::compass_point::Cardinal::N] {
+                dg.u64(st.get_corner(&c).unwrap_or(u64::MAX));
+            }
+            for v in st.get_edge(&cdshealpix::compass_point::Ordinal::SE).iter() {
                 dg.u64(*v);
             }
         }
